@@ -109,8 +109,9 @@ Definition planLimit (maxPacket : Z) (p : Z * Z) : Z :=
 
 (** the flight is realisable: a CRYPTO byte fits every packet, a pinned split fits its packet *)
 Definition roomOk (maxHdr maxPacket : Z) (plans : list (Z * Z)) : bool :=
-  (maxHdr + 16 + 4 <=? maxPacket)
-  && forallb (fun p => maxHdr + 16 + 4 <=? planLimit maxPacket p) plans
+  (* minCryptoFrame = type + offset varint (up to 8 bytes) + length + one data byte *)
+  (maxHdr + 16 + 11 <=? maxPacket)
+  && forallb (fun p => maxHdr + 16 + 11 <=? planLimit maxPacket p) plans
   && forallb (fun p => (fst p <=? 0) || (maxHdr + 1 + 4 + vlen (fst p) + fst p <? planLimit maxPacket p - 16)) plans.
 
 (** InitialPacketSpec.validate, complete (the checks of [validateSpec] come first in the code
